@@ -398,12 +398,13 @@ def judge_config(space, cfg):
 
 # ----------------------------------------------------------------------------------------------- search stream
 TREE = ("RF", "ET", "TB", "RS", "DUMMY")
-FAILS = ("none", "some", "first", "nan", "all")
+FAILS = ("none", "some", "first", "nan", "all", "const")
 KINDS = ("int", "float", "cat", "ordnum", "mixed", "tiny")
 WHY = [("disentangled_std", "disentangled_std"), ("has to be a regressor", "not_regressor"), ("n_estimators", "gbrt_n_estimators"),
        ("n_estimtaors", "gbrt_n_estimators"), ("in1d", "numpy_in1d"), ("Gradient not implemented for MES", "mes_gradient"),
        ("not within the bounds", "tell_rejects_point"), ("Not all points are within the bounds", "tell_rejects_point"),
-       ("Can only compute distance for values within", "point_outside_space"), ("scikit-garden", "missing_dependency")]
+       ("Can only compute distance for values within", "point_outside_space"), ("scikit-garden", "missing_dependency"),
+       ("pvals", "boltzmann_nan")]
 
 
 def classify(msg):
@@ -427,6 +428,8 @@ def objective_fn(case, record):
             return "F_first"
         if pat == "nan" and i % 4 == 2:
             return float("nan") if i % 8 == 2 else float("-inf")
+        if pat == "const":
+            return 0.0
         # a deterministic objective of the position in the run and of the numeric values (any function will do)
         s = 0.0
         for v in job.parameters.values():
@@ -571,9 +574,9 @@ def gen_hp(rng, kind, name):
         if c < 0.4:
             lo, hi = rng.choice([(1e-5, 1e7), (1e-12, 1e-9), (1e-3, 0.1), (0.001, 1000.0), (1e-8, 1.0), (3e-4, 7e2), (1.0, 1e12)])
             return dict(kind="float", name=name, lo=lo, hi=hi, log=True)
-        if c < 0.55:
+        if c < 0.55:  # (ConfigSpace rounds bounds to ~13 significant digits and refuses ranges that collapse)
             lo = rng.choice([-1, 1]) * 10.0 ** rng.uniform(-12, 12)
-            return dict(kind="float", name=name, lo=lo, hi=lo + abs(lo) * 10.0 ** rng.uniform(-6, 2))
+            return dict(kind="float", name=name, lo=lo, hi=lo + abs(lo) * 10.0 ** rng.uniform(-3, 2))
         if c < 0.7:
             lo = 10.0 ** rng.uniform(-9, 3)
             return dict(kind="float", name=name, lo=lo, hi=lo * 10.0 ** rng.uniform(0.01, 9), log=True)
@@ -1053,7 +1056,7 @@ def check_branches(case):
                 for x in pending:
                     told += 1
                     fail = (op[1] == "fail_some" and told % 3 == 0) or op[1] == "fail_all"
-                    ys.append("F" if fail else float(math.sin(told) + told % 4))
+                    ys.append("F" if fail else 1.0 if op[1] == "const" else float(math.sin(told) + told % 4))
                 st = state()
                 k_ok = sum(1 for y in ys if y != "F")
                 try:
@@ -1090,7 +1093,7 @@ def gen_branches(count):
                     n = rng.choice([None, 1, 2, 3, 4])
                     ops.append(["ask", n, rng.choice(["cl_min", "cl_max", "cl_mean", "topk", "boltzmann", "qLCB", "qLCBd"])])
                 else:
-                    ops.append(["tell", rng.choice(["ok", "ok", "fail_some", "fail_all"])])
+                    ops.append(["tell", rng.choice(["ok", "ok", "fail_some", "fail_all", "const"])])
                     if rng.random() < 0.5:
                         ops.insert(len(ops) - 1, ["ask", rng.choice([2, 3]), rng.choice(["cl_min", "topk", "qLCB"])])
             n_init = rng.choice([0, 1, 2, 3, 5]) if i % 10 == 0 else rng.choice([1, 2, 3, 5])
